@@ -41,8 +41,8 @@ Inductive solve_result :=
    by the decided versions.  `NoSolution` is returned only if no assignment exists.
    This is a hypothesis of theorems (a Section variable), never an axiom; and each concrete answer
    of the real pubgrub is re-validated at check time by [valid_solution] / [exists_solution].
-   pubgrub 0.3.0 does NOT meet it when a version depends on its own package (known finding
-   `self-dependency`). *)
+   pubgrub 0.3.0 does NOT meet it when `get_dependencies` reports a dependency of a package on
+   itself (finding `self-dependency`, fixed in 3edc943 by never reporting one). *)
 Definition pubgrub_sound (solve : index -> assignment -> manifest -> solve_result) : Prop :=
   forall idx locked man sol, solve idx locked man = Solved sol ->
     keys_nodup sol = true
@@ -51,7 +51,7 @@ Definition pubgrub_sound (solve : index -> assignment -> manifest -> solve_resul
     /\ (forall k rgs, In (k, rgs) (root_dependencies man) ->
           exists w, alookup k sol = Some w /\ ranges_contain rgs w = true)
     /\ (forall k v, In (k, v) sol ->
-          exists ds, get_dependencies idx k v = Some ds
+          exists ds, get_dependencies idx k v = DAvailable ds
                   /\ forall k' rgs, In (k', rgs) ds ->
                        exists w, alookup k' sol = Some w /\ ranges_contain rgs w = true).
 
